@@ -93,7 +93,23 @@ def kernels(ctx):
             ok = val.eq(vsum(TB([V.const(g), i, q]) * RB([V.const(0), V.const(g), j, q]) for g in range(3)) * w * J)
         elif kt == "_curl_curl_product" and not others:
             ok = val.eq(TB([i]) * RB([j]) * w * J)
-        r.check(ok and lin_ok, "%s (%s)" % (fname, kt), NK, fname, fn.lineno, "sparse kernel integrand " + kt, "accumulated value differs from sum_q <test basis, trial basis> w_q J for kernel type %s" % kt)
+        # every summation variable runs over the extent of the axis of the basis-value array it indexes
+        rng_ok, rng_msg = True, ""
+        for s in sig:
+            v = A.sigma_var(s)
+            rg = repr(symex.RANGES.get(v))
+            axes = set()
+            for a in val.atoms():
+                if a in symex.ATOMS and symex.ATOMS[a][0].startswith("B("):
+                    for pos, ix in enumerate(symex.ATOMS[a][1][1:]):
+                        if A._single_atom(ix) == v:
+                            axes.add(pos)
+            allowed = {"[shape(B(%s),%d)]" % (side, ax) for side in ("test_basis", "trial_basis") for ax in axes}
+            if rg == "[#quad]" and v == q0:
+                continue  # the number of quadrature points taken from the weights
+            if axes and rg not in allowed:
+                rng_ok, rng_msg = False, "; the sum over `%s` runs over %s although it indexes axis %s of the basis values" % (v, rg, sorted(axes))
+        r.check(ok and lin_ok and rng_ok, "%s (%s)" % (fname, kt), NK, fname, fn.lineno, "sparse kernel integrand " + kt, "accumulated value differs from sum_q <test basis, trial basis> w_q J for kernel type %s%s" % (kt, rng_msg))
 
 
 def evaluators(ctx):
